@@ -51,9 +51,17 @@ fn sorts() -> Vec<Sort> {
     let str_vals = vec![FV::Null, s(""), s("a"), s("b")];
     let mut str_probes = str_vals.clone();
     str_probes.extend([s("A"), s("aa"), s("c")]);
+    // floats: -0.0 and 0.0 are equal values with different representations
+    let f = FV::Float64;
+    let float_vals = vec![FV::Null, f(-1.5), f(-0.0), f(0.0), f(1.5), f(f64::MAX)];
+    let mut float_probes = float_vals.clone();
+    float_probes.extend([f(-2.0), f(-1.0), f(0.5), f(2.0), f(f64::MIN_POSITIVE)]);
+    let bool_vals = vec![FV::Null, FV::Boolean(false), FV::Boolean(true)];
     vec![
         Sort { name: "int", bounds: int_vals[1..].to_vec(), values: int_vals, probes: int_probes },
         Sort { name: "string", bounds: str_vals[1..].to_vec(), values: str_vals, probes: str_probes },
+        Sort { name: "float", bounds: float_vals[1..].to_vec(), values: float_vals, probes: float_probes },
+        Sort { name: "boolean", bounds: bool_vals[1..].to_vec(), values: bool_vals.clone(), probes: bool_vals },
     ]
 }
 
